@@ -41,6 +41,24 @@ def periodic_ok(kind):
     return kind in ("lin", "azi")
 
 
+FLAG_MODES = ("both", "lo", "hi")
+
+
+def flag_mode(*ints):
+    """Which face(s) of a periodic axis carry the `periodic` flag - either face declares the axis periodic, so all
+    three ways are equivalent requests.  Checks that do not enumerate the three modes pick one deterministically
+    from the parameters of the configuration, so that every mode occurs on every class somewhere."""
+    return FLAG_MODES[sum(int(i) for i in ints) % 3]
+
+
+def set_periodic(bc, ax, mode="both"):
+    lo, hi = SIDES[ax]
+    if mode in ("both", "lo"):
+        getattr(bc, lo).periodic = True
+    if mode in ("both", "hi"):
+        getattr(bc, hi).periodic = True
+
+
 def has_radial(cls):
     return AXES[cls][0] == "rad"
 
